@@ -264,7 +264,9 @@ def startFirstIfClosed : List Group → List Group × List Ev
   | [] => ([], [])
   | b :: t => if b.status = .closed then let r := b.startSockets; (r.1 :: t, r.2.1) else (b :: t, [])
 
-/-- `rtr_mgr_add_group`; return code -2 = RTR_INVALID_PARAM -/
+/-- `rtr_mgr_add_group`; return code -2 = RTR_INVALID_PARAM.
+    (The C function does not check `sockets_len`; a socket-less group makes the *next* add_group
+    dereference `sockets[0]` of an empty array, so the line protocol only offers `nsocks ≥ 1`.) -/
 def add (gs : List Group) (pref nsocks : Nat) : List Group × List Ev × Int :=
   if gs.any (fun g => g.pref == pref) then (gs, [], -2)
   else
